@@ -381,7 +381,30 @@ var ruleA5 = &Rule{
 						fmt.Sprintf("the version recorded is %s but the statement just executed has absolute index %s: the row must be that index plus one — after a resumed run the recorded version would not be the number of statements applied", got.String(), abs.String()))
 					// (3) loop shape: the counter is a phi stepping by one, compared with the length of the list
 					var counter *ssa.Phi
-					for v := range linOf(idx, nil, 0).terms {
+					idxV := idx
+					// the index may be a parameter of a helper that runs one script: the loop is at its (single) call site
+					for hop := 0; hop < 3; hop++ {
+						var ip *ssa.Parameter
+						for v := range linOf(idxV, nil, 0).terms {
+							if p, ok := v.(*ssa.Parameter); ok && p.Parent() == loopFn {
+								ip = p
+							}
+						}
+						if ip == nil {
+							break
+						}
+						sites := callSitesOf(c, loopFn)
+						if len(sites) != 1 {
+							break
+						}
+						for i, p := range loopFn.Params {
+							if p == ip && i < len(sites[0].Common().Args) {
+								idxV = sites[0].Common().Args[i]
+							}
+						}
+						loopFn = sites[0].Parent()
+					}
+					for v := range linOf(idxV, nil, 0).terms {
 						if ph, ok := v.(*ssa.Phi); ok {
 							counter = ph
 						}
@@ -426,7 +449,7 @@ var ruleA5 = &Rule{
 							if lc, ok := y.(*ssa.Call); ok {
 								if bi, ok := lc.Common().Value.(*ssa.Builtin); ok && bi.Name() == "len" {
 									la := lc.Common().Args[0]
-									if la == base || canon(la) == canon(base) || sameExpr(la, base, 0) || (func() bool { s, ok := la.(*ssa.Slice); return ok && s.X == base })() {
+									if la == base || canon(la) == canon(base) || sameExpr(la, base, 0) || sameFieldLoad(la, base) || (func() bool { s, ok := la.(*ssa.Slice); return ok && s.X == base })() {
 										boundOK = true
 									}
 								}
@@ -454,9 +477,32 @@ var ruleA5 = &Rule{
 								bindCallParams(call, loopFn)
 							}
 						}
-						okInit = dependsOnValue(start, func(v ssa.Value) bool {
-							al, ok := v.(*ssa.Alloc)
-							if !ok || al.Referrers() == nil {
+						var scannedPtr func(al ssa.Value) bool
+						startPred := func(v ssa.Value) bool {
+							switch x := v.(type) {
+							case *ssa.Alloc:
+								return scannedPtr(x)
+							case *ssa.UnOp:
+								// a field of the run object: scanned into through the same field in another of its methods
+								fa, ok := x.X.(*ssa.FieldAddr)
+								if !ok || x.Op != token.MUL {
+									return false
+								}
+								fk := fieldKey(fa.X.Type(), fa.Field)
+								for _, fn := range liveModuleFuncs(c, "ctrl") {
+									for _, fb := range fn.Blocks {
+										for _, fi := range fb.Instrs {
+											if f2, ok := fi.(*ssa.FieldAddr); ok && fieldKey(f2.X.Type(), f2.Field) == fk && scannedPtr(f2) {
+												return true
+											}
+										}
+									}
+								}
+							}
+							return false
+						}
+						scannedPtr = func(al ssa.Value) bool {
+							if al.Referrers() == nil {
 								return false
 							}
 							// &ver passed to a Scan whose rows come from the max(ver) query with the stream id
@@ -523,7 +569,8 @@ var ruleA5 = &Rule{
 								}
 							}
 							return false
-						}, map[ssa.Value]bool{}, 0)
+						}
+						okInit = dependsOnValue(start, startPred, map[ssa.Value]bool{}, 0)
 						paramBindings, autoBindParams = nil, false
 					}
 					add("loop starts at the version recorded for this stream", okInit, w.Pos(),
